@@ -25,11 +25,11 @@ type RdStep struct {
 
 type IOSpec struct {
 	Method   string   `json:"method,omitempty"`
-	CT       string   `json:"ct,omitempty"`       // Content-Type header ("" = absent)
-	Query    string   `json:"query,omitempty"`    // raw query string
+	CT       string   `json:"ct,omitempty"`        // Content-Type header ("" = absent)
+	Query    string   `json:"query,omitempty"`     // raw query string
 	BodyKind string   `json:"body_kind,omitempty"` // json | form | raw | none
-	Body     string   `json:"body,omitempty"`     // raw body (BodyKind raw) – otherwise rendered from the op input
-	QueryIn  *Val     `json:"query_in,omitempty"` // logical record rendered into the query string
+	Body     string   `json:"body,omitempty"`      // raw body (BodyKind raw) – otherwise rendered from the op input
+	QueryIn  *Val     `json:"query_in,omitempty"`  // logical record rendered into the query string
 	Steps    []RdStep `json:"steps,omitempty"`
 	Chunk    int      `json:"chunk,omitempty"`    // default chunk size once the script is exhausted (0: as much as asked)
 	TruncAt  int      `json:"trunc_at,omitempty"` // fault position + 1 (0: no fault)
